@@ -56,7 +56,9 @@ type specState struct {
 	res     *specResult
 }
 
-func specFields(s string) []string { return strings.Fields(s) }
+func specFields(s string) []string { // interp.splitBlanks: space, tab, newline
+	return strings.FieldsFunc(s, func(r rune) bool { return r == ' ' || r == '\t' || r == '\n' })
+}
 
 func (s *specState) file(name string) ([]string, bool) {
 	for _, f := range s.c.Files {
